@@ -7,6 +7,7 @@
   enter followed by exit gives back an equivalent store (`enterS_exitS`).
 -/
 import PgModel.Scope
+import PgProofs.ScopeRules
 namespace Pg.C17
 
 def normA : Option Atom → Option Atom
@@ -299,6 +300,56 @@ theorem enter_spec {m : Mgr} {a : Arg} {t : Nat} {w w1 : World} {sv : Saved} {st
     subst h1 h2 h3
     exact ⟨by simp [storageOf, hk], w.patch _, _, rfl, rfl, rfl, enterS_exitS m a _⟩
 
+theorem normS_cons {x : Option (List Frame)} {g : Frame} {l : List Frame}
+    (h : normS x = normS (some (g :: l))) : x = some (g :: l) := by
+  cases x with
+  | none => simp [normS] at h
+  | some y => cases y with
+    | nil => simp [normS] at h
+    | cons a b => simpa [normS] using h
+
+theorem callDest_spec {m : Mgr} {c : String} {t : Nat} {w : World} {d : Val} (h : callDest m c t w = some d) :
+    ∃ f l, (w.sel m.storage t).stk m.key = some (f :: l) ∧ Dict.get? f c = some d := by
+  unfold callDest at h
+  split at h
+  · rename_i f l hs
+    split at h
+    · rename_i d' hg
+      split at h
+      · simp only [Option.some.injEq] at h
+        exact ⟨f, l, hs, h ▸ hg⟩
+      · cases h
+    · cases h
+  · cases h
+
+/-- The call of a destination function: the temporary `c ↦ c` entry is undone by the `finally`, on
+normal return and when the function raises alike — given that the function body itself leaves an
+equivalent world behind. -/
+theorem call_restores {m : Mgr} {c : String} {t : Nat} {w r : World} {d u : Val}
+    (hd : callDest m c t w = some d) (hr : r.Eqv (setTop m c u t w)) : (setTop m c d t r).Eqv w := by
+  obtain ⟨f, l, hs, hg⟩ := callDest_spec hd
+  have hw1 : setTop m c u t w = w.put m.storage t { w.sel m.storage t with
+      stk := upd (w.sel m.storage t).stk m.key (some (Dict.set f c u :: l)) } := by
+    simp only [setTop, hs]
+  rw [hw1] at hr
+  have h1 := sel_eqv hr m.storage t
+  rw [sel_put] at h1
+  have hstk : (r.sel m.storage t).stk m.key = some (Dict.set f c u :: l) := by
+    have := h1.stk m.key
+    simp only [upd, if_true] at this
+    exact normS_cons this
+  have hr1 : setTop m c d t r = r.put m.storage t { r.sel m.storage t with
+      stk := upd (r.sel m.storage t).stk m.key (some (Dict.set (Dict.set f c u) c d :: l)) } := by
+    simp only [setTop, hstk]
+  rw [hr1, Dict.set_set_restore f c u d hg]
+  refine put_back hr ?_
+  refine ⟨h1.val, h1.once, h1.tim, fun k => ?_, h1.cmap, h1.ovr⟩
+  have := h1.stk k
+  simp only [upd] at this ⊢
+  split
+  · rename_i hk; subst hk; rw [hs]
+  · rename_i hk; simpa [hk] using this
+
 /-- The central invariant: whatever a well-nested program does — any nesting, any arguments,
 normal or exceptional exits — the world it leaves is equivalent to the world it found. -/
 theorem exec_eqv (t : Nat) (p : Prog) : ∀ w, (exec t p w).world.Eqv w := by
@@ -313,6 +364,12 @@ theorem exec_eqv (t : Nat) (p : Prog) : ∀ w, (exec t p w).world.Eqv w := by
     cases ho : (exec t p w).outcome with
     | normal => exact (ihq _).trans (ihp w)
     | exc e => exact ihp w
+  | call m c p ih =>
+    intro w
+    simp only [exec]
+    cases hd : callDest m c t w with
+    | none => exact World.Eqv.refl w
+    | some d => exact call_restores hd (ih _)
   | scope m a p ih =>
     intro w
     simp only [exec]
@@ -481,6 +538,28 @@ theorem exit_sim {m : Mgr} {sv : Saved} {st : Storage} {t : Nat} {w ws : World} 
   exact ⟨by rw [put_tls_self _ _ hst, put_tls_self _ _ hst, sel_local _ _ hst, sel_local _ _ hst, h.1],
          by rw [put_proc_local _ _ hst, put_proc_local _ _ hst, h.2]⟩
 
+theorem sel_sim {t : Nat} {w ws : World} (h : Sim t w ws) (st : Storage) : w.sel st t = ws.sel st t := by
+  cases st <;> simp only [World.sel, h.1, h.2]
+
+theorem put_sim {t : Nat} {w ws : World} (h : Sim t w ws) (st : Storage) (s : Store) :
+    Sim t (w.put st t s) (ws.put st t s) := by
+  cases st <;> simp [Sim, World.put, World.put.upd', h.1, h.2]
+
+theorem callDest_sim {m : Mgr} {c : String} {t : Nat} {w ws : World} (h : Sim t w ws) :
+    callDest m c t w = callDest m c t ws := by
+  unfold callDest; rw [sel_sim h]
+
+theorem topFrame_sim {m : Mgr} {t : Nat} {w ws : World} (h : Sim t w ws) : topFrame m t w = topFrame m t ws := by
+  unfold topFrame; rw [sel_sim h]
+
+theorem setTop_sim {m : Mgr} {c : String} {v : Val} {t : Nat} {w ws : World} (h : Sim t w ws) :
+    Sim t (setTop m c v t w) (setTop m c v t ws) := by
+  unfold setTop
+  rw [sel_sim h]
+  split
+  · exact put_sim h _ _
+  · exact h
+
 theorem execI_sim (t : Nat) (p : Prog) : ∀ (env : Env) (w ws : World), p.threadLocal = true →
     (∀ f ∈ env, Frames t f) → Sim t w ws →
     (execI t p env w).outcome = (exec t p ws).outcome ∧ (execI t p env w).obs = (exec t p ws).obs ∧
@@ -493,6 +572,17 @@ theorem execI_sim (t : Nat) (p : Prog) : ∀ (env : Env) (w ws : World), p.threa
     obtain ⟨h1, h2⟩ := interfere_sim henv h
     simp only [execI, exec]
     exact ⟨by trivial, by rw [getter_sim m h1], h1, h2⟩
+  | call m c p ih =>
+    intro env w ws hp henv h
+    obtain ⟨h1, h2⟩ := interfere_sim henv h
+    simp only [execI, exec]
+    rw [callDest_sim h1, topFrame_sim h1]
+    cases hd : callDest m c t ws with
+    | none => exact ⟨by trivial, by trivial, h1, h2⟩
+    | some d =>
+      obtain ⟨g1, g2, g3, g4⟩ := ih _ _ _ (by simpa [Prog.threadLocal] using hp) h2 (setTop_sim (c := c) (v := .atom (.str c)) h1)
+      obtain ⟨k1, k2⟩ := interfere_sim g4 g3
+      exact ⟨g1, by simp only [g2], setTop_sim k1, k2⟩
   | try_ p ih =>
     intro env w ws hp henv h
     obtain ⟨_, h2, h3, h4⟩ := ih env w ws (by simpa [Prog.threadLocal] using hp) henv h
